@@ -4,10 +4,9 @@
 #    result yet: 3 workers with their own scratch worktree path /tmp/seeded-wt<k>; all seeded changes of
 #    one property go to the same worker (they share translator output).
 cd "$(dirname "$0")/.."
+TODO=$(for n in $(ls /tmp/mut-out 2>/dev/null); do [ -f /tmp/mut-out/$n/meta.json ] && [ ! -d seeded/$n ] && echo $n; done)
 for k in 0 1; do
-  ( i=0; for n in $(ls /tmp/mut-out 2>/dev/null); do
-      [ -f /tmp/mut-out/$n/meta.json ] || continue
-      [ -d seeded/$n ] && continue
+  ( i=0; for n in $TODO; do
       i=$((i+1)); [ $((i % 2)) -eq $k ] || continue
       CARGO_BUILD_JOBS=6 python3 vp/confirm_seeded.py /tmp/mut-out/$n --slot $k 2>&1 | tail -1
     done ) &
